@@ -56,7 +56,8 @@ def rewrites(fn):
                     ]
                 if isinstance(st, ast.Return) and st.value is not None and not isinstance(st.value, (ast.Name, ast.Constant)):
                     yield "T3", st, [ast.Assign(targets=[ast.Name(id="nt_ret", ctx=ast.Store())], value=st.value, lineno=0), ast.Return(value=ast.Name(id="nt_ret", ctx=ast.Load()))]
-                if isinstance(st, ast.If) and st.orelse and not (len(st.orelse) == 1 and isinstance(st.orelse[0], ast.If)):
+                is_elif = field == "orelse" and isinstance(node, ast.If) and len(body) == 1  # rewriting an elif would cut the chain
+                if isinstance(st, ast.If) and st.orelse and not is_elif and not (len(st.orelse) == 1 and isinstance(st.orelse[0], ast.If)):
                     yield "T4", st, [ast.If(test=ast.UnaryOp(op=ast.Not(), operand=st.test), body=st.orelse, orelse=st.body)]
     for node in ast.walk(fn):
         if isinstance(node, ast.Compare) and len(node.ops) == 1 and isinstance(node.ops[0], ast.Eq) and not has_call(node):
